@@ -80,19 +80,18 @@ structure SameCore (a b : St) : Prop where
   listener : b.listener = a.listener
   authenticated : b.authenticated = a.authenticated
   redirect : b.redirect = a.redirect
-  canResume : b.canResume = a.canResume
   smEnabled : b.smEnabled = a.smEnabled
   smResumed : b.smResumed = a.smResumed
   smAvail : b.smAvail = a.smAvail
   bindAvail : b.bindAvail = a.bindAvail
   ackEnabled : b.ackEnabled = a.ackEnabled
 
-theorem SameCore.refl (a : St) : SameCore a a := ⟨rfl, rfl, rfl, rfl, rfl, rfl, rfl, rfl, rfl, rfl, rfl, rfl, rfl, rfl⟩
+theorem SameCore.refl (a : St) : SameCore a a := ⟨rfl, rfl, rfl, rfl, rfl, rfl, rfl, rfl, rfl, rfl, rfl, rfl, rfl⟩
 
 theorem SameCore.trans {a b c : St} (h1 : SameCore a b) (h2 : SameCore b c) : SameCore a c :=
   ⟨h2.cfg.trans h1.cfg, h2.conn.trans h1.conn, h2.encrypted.trans h1.encrypted, h2.headerSeen.trans h1.headerSeen,
    h2.wedged.trans h1.wedged, h2.listener.trans h1.listener, h2.authenticated.trans h1.authenticated,
-   h2.redirect.trans h1.redirect, h2.canResume.trans h1.canResume, h2.smEnabled.trans h1.smEnabled,
+   h2.redirect.trans h1.redirect, h2.smEnabled.trans h1.smEnabled,
    h2.smResumed.trans h1.smResumed, h2.smAvail.trans h1.smAvail, h2.bindAvail.trans h1.bindAvail,
    h2.ackEnabled.trans h1.ackEnabled⟩
 
@@ -101,14 +100,14 @@ theorem sendStanza_core (s : St) (k : Kind) :
     (sendStanza s k).1.pendingIq = s.pendingIq := by
   unfold sendStanza
   split
-  · exact ⟨⟨rfl, rfl, rfl, rfl, rfl, rfl, rfl, rfl, rfl, rfl, rfl, rfl, rfl, rfl⟩, rfl, rfl⟩
+  · exact ⟨⟨rfl, rfl, rfl, rfl, rfl, rfl, rfl, rfl, rfl, rfl, rfl, rfl, rfl⟩, rfl, rfl⟩
   · exact ⟨SameCore.refl s, rfl, rfl⟩
 
 theorem csiSendState_core (s : St) :
     SameCore s (csiSendState s).1 ∧ (csiSendState s).1.sessionStarted = s.sessionStarted ∧
     (csiSendState s).1.pendingIq = s.pendingIq := by
   unfold csiSendState
-  split <;> exact ⟨⟨rfl, rfl, rfl, rfl, rfl, rfl, rfl, rfl, rfl, rfl, rfl, rfl, rfl, rfl⟩, rfl, rfl⟩
+  split <;> exact ⟨⟨rfl, rfl, rfl, rfl, rfl, rfl, rfl, rfl, rfl, rfl, rfl, rfl, rfl⟩, rfl, rfl⟩
 
 theorem csiOnSessionOpened_core (s : St) (b : Bool) :
     SameCore s (csiOnSessionOpened s b).1 ∧ (csiOnSessionOpened s b).1.sessionStarted = s.sessionStarted ∧
@@ -119,7 +118,7 @@ theorem csiOnSessionOpened_core (s : St) (b : Bool) :
     · exact ⟨SameCore.refl s, rfl, rfl⟩
     · exact csiSendState_core s
   · split
-    · exact ⟨⟨rfl, rfl, rfl, rfl, rfl, rfl, rfl, rfl, rfl, rfl, rfl, rfl, rfl, rfl⟩, rfl, rfl⟩
+    · exact ⟨⟨rfl, rfl, rfl, rfl, rfl, rfl, rfl, rfl, rfl, rfl, rfl, rfl, rfl⟩, rfl, rfl⟩
     · exact csiSendState_core s
 
 /-- what `openSession` does to the fields the C10 theorems talk about -/
@@ -129,16 +128,16 @@ theorem openSession_spec (s : St) :
     (openSession s).1.pendingIq = (if s.smResumed then s.pendingIq else 0) := by
   unfold openSession
   dsimp only
-  generalize hs2 : (if ({ s with sessionStarted := true, bind2Bound := false } : St).smResumed = true
-      then ({ s with sessionStarted := true, bind2Bound := false } : St)
-      else { ({ s with sessionStarted := true, bind2Bound := false } : St) with pendingIq := 0 }) = s2
+  generalize hs2 : (if ({ s with sessionStarted := true, bind2Bound := false, canResume := s.smEnabled && s.canResume } : St).smResumed = true
+      then ({ s with sessionStarted := true, bind2Bound := false, canResume := s.smEnabled && s.canResume } : St)
+      else { ({ s with sessionStarted := true, bind2Bound := false, canResume := s.smEnabled && s.canResume } : St) with pendingIq := 0 }) = s2
   have h2 : SameCore s s2 ∧ s2.sessionStarted = true ∧ s2.pendingIq = (if s.smResumed then s.pendingIq else 0) := by
     subst hs2
     split
     · rename_i h
-      exact ⟨⟨rfl, rfl, rfl, rfl, rfl, rfl, rfl, rfl, rfl, rfl, rfl, rfl, rfl, rfl⟩, rfl, by simp_all⟩
+      exact ⟨⟨rfl, rfl, rfl, rfl, rfl, rfl, rfl, rfl, rfl, rfl, rfl, rfl, rfl⟩, rfl, by simp_all⟩
     · rename_i h
-      exact ⟨⟨rfl, rfl, rfl, rfl, rfl, rfl, rfl, rfl, rfl, rfl, rfl, rfl, rfl, rfl⟩, rfl, by simp_all⟩
+      exact ⟨⟨rfl, rfl, rfl, rfl, rfl, rfl, rfl, rfl, rfl, rfl, rfl, rfl, rfl⟩, rfl, by simp_all⟩
   have f3 := csiOnSessionOpened_core s2 s.bind2Bound
   generalize csiOnSessionOpened s2 s.bind2Bound = r3 at f3
   generalize hr4 : (if r3.1.authenticated = true then sendStanza r3.1 (.iqRequest true) else (r3.1, [])) = r4
